@@ -91,6 +91,9 @@ Busy   == {retry[i].callee : i \in DOMAIN retry} \cup {retry[i].c[1] : i \in DOM
 \* the router in its replies could not be bound while they sit in its queue).
 J      == {x \in Joined(Cur) \ Busy : ~sess[x].stalled}
 Sids   == {sess[s].id : s \in DOMAIN sess}
+\* (sessions that already left testaments get more - in the other scope - and flush one scope while holding both)
+Heirs == {x \in J : x \in DOMAIN tst /\ tst[x] # <<>>}
+ScopesOf(x) == {IF tst[x][j].scope = "" THEN "destroyed" ELSE tst[x][j].scope : j \in DOMAIN tst[x]}
 
 NextId(S) == IF S = {} THEN 1 ELSE (CHOOSE n \in S : \A m \in S : m <= n) + 1
 
@@ -402,7 +405,7 @@ GInvError ==
          IN Step(i, InvErrorFx(Cur, s, inv, e, Tag))
 
 GLeave ==
-  \E s \in J : \E how \in R({"goodbye", "lost", "violation"}) :
+  \E heir \in R(1..2) : \E s \in R(IF Heirs # {} /\ heir = 1 THEN Heirs ELSE J) : \E how \in R({"goodbye", "lost", "violation"}) :
     LET i == [In0 EXCEPT !.op = "leave", !.s = s, !.how = how]
     IN Step(i, LeaveFx(Cur, s, how, ""))
 
@@ -578,7 +581,12 @@ GKill ==
 \* topics somebody else would receive
 Covered(s) == {u \in Targets : \E k \in DOMAIN subs : MatchKey(k, u) /\ subs[k].members \ {s} # {}}
 GTestament ==
-  \E s \in J : \E which \in W(<<1, 1, 1, 2>>) : \E u \in R(IF Covered(s) # {} THEN Covered(s) ELSE Targets), scope \in R({"", "destroyed", "detached"}),
+  \E again \in R(1..3) : \E s \in R(IF Heirs # {} /\ again # 1 THEN Heirs ELSE J) :
+  \E which \in (IF s \in DOMAIN tst /\ Cardinality(ScopesOf(s)) = 2 THEN W(<<1, 2, 2>>) ELSE W(<<1, 1, 1, 2>>)) :
+  \E u \in R(IF Covered(s) # {} THEN Covered(s) ELSE Targets),
+     scope \in (IF which = 1 /\ s \in DOMAIN tst /\ ScopesOf(s) = {"destroyed"} THEN {"detached"}
+                ELSE IF which = 1 /\ s \in DOMAIN tst /\ ScopesOf(s) = {"detached"} THEN R({"", "destroyed"})
+                ELSE R({"", "destroyed", "detached"})),
      xme \in W(<<"", "f">>), xl \in R(SidLists), kind \in R(1..3) :
     LET o == [O0 EXCEPT !.xme = xme, !.xl = IF kind = 1 THEN xl ELSE <<>>, !.hx = kind = 1] IN
     CASE which = 1 -> MetaStep(s, [In0 EXCEPT !.uri = U_session_add_testament, !.uri2 = u, !.how = scope,
